@@ -482,6 +482,117 @@ def r07r(rep, prog, only_files=None):
     return n
 
 
+def r07s(rep, prog):
+    """the (tree, edge) -> node table of the isometric-circuit builder is read for circuits that may not be in it (two shortest-path trees
+    that break a floating-point tie differently do not produce the partner circuit): a lookup must tolerate the missing key.  `find(k)->second`
+    / `*find(k)` dereferences end() in that case (operator[] inserts a default node, at() throws - both defined)."""
+    what = 'lookups in the circuit table of ISOCyclesBuilder tolerate a missing partner circuit'
+    n = 0
+    for fn in prog.functions:
+        if fn.implicit or fn.body is None or 'ISOCyclesBuilder::operator()' not in fn.g:
+            continue
+        if fn.g.endswith('ISOCyclesBuilder::operator()') is False and '(lambda)' not in fn.g:
+            continue
+        for d in fn.walk():
+            if d.k == 'CXXMemberCallExpr' and d.callee and d.callee['name'] == 'find' and d.object_arg() is not None and \
+                    ((prog.base_type(d.object_arg().strip_all().j.get('t')) or {}).get('rec') or '') in ('std::map', 'std::unordered_map'):
+                n += 1
+                up = d.top_transparent().parent if hasattr(d, 'top_transparent') else d.parent
+                deref = up is not None and ((up.k == 'CXXOperatorCallExpr' and up.op in ('->', '*')) or (up.k == 'MemberExpr') or (up.k == 'UnaryOperator' and up.op == '*'))
+                if deref:
+                    rep.violation('R07s', d, fn, what, '`%s` is dereferenced without a comparison with end(): when the partner circuit is missing this reads the map header '
+                                  'and uses the garbage as a vertex of the auxiliary graph' % d.text(50), key='R07s|%s|%d' % (fn.g, d.line))
+                else:
+                    rep.ok('R07s', d, fn, what, 'result kept for a test against end()')
+    return n
+
+
+SORTED_RANGE_ALGOS = ('std::set_difference', 'std::set_union', 'std::set_intersection', 'std::set_symmetric_difference', 'std::includes',
+                      'std::merge', 'std::binary_search', 'std::lower_bound', 'std::upper_bound', 'std::equal_range')
+
+
+def r07t(rep, prog, only_files=None):
+    """the sorted-range algorithms of <algorithm> are only applied to sorted ranges: std::set_difference & co. over a std::vector member that is
+    filled with push_back in path order (and never sorted anywhere in the program) compare the two paths in an order that depends on the direction
+    in which each was built - the lexicographic tie-break of the shortest-path trees then differs from root to root."""
+    n = 0
+    what = 'ranges handed to std::set_difference / includes / binary_search ... are sorted'
+    sorted_fields = set()
+    appended_fields = set()
+    for f in prog.functions:
+        if f.body is None:
+            continue
+        for x in f.walk():
+            if x.k == 'CallExpr' and x.callee and x.callee['g'] in ('std::sort', 'std::stable_sort') and x.args():
+                a0 = x.args()[0].strip_all()
+                if a0.k == 'CXXMemberCallExpr' and a0.object_arg() is not None:
+                    for y in [a0.object_arg().strip_all()] + list(a0.object_arg().walk()):
+                        if y.k == 'MemberExpr' and y.decl_id is not None:
+                            sorted_fields.add(y.decl_id)
+            if x.k == 'CXXMemberCallExpr' and x.callee and x.callee['name'] in ('push_back', 'emplace_back') and x.object_arg() is not None:
+                o = x.object_arg().strip_all()
+                if o.k == 'MemberExpr' and o.decl_id is not None:
+                    appended_fields.add(o.decl_id)
+    # a local vector that is appended to and then handed to a constructor of a record: the vector members of that record hold it
+    for f in prog.functions:
+        if f.body is None:
+            continue
+        appended_locals = {ex.var_of(x.object_arg()) for x in f.walk() if x.k == 'CXXMemberCallExpr' and x.callee and x.callee['name'] in ('push_back', 'emplace_back')
+                           and x.object_arg() is not None and ex.var_of(x.object_arg()) is not None and
+                           ((prog.base_type(x.object_arg().strip_all().j.get('t')) or {}).get('rec') or '') == 'std::vector'}
+        appended_locals.discard(None)
+        if not appended_locals:
+            continue
+        for x in f.walk():
+            if x.k in ex.CTOR_KINDS and x.callee and x.callee.get('ctor') and (x.callee.get('rec') or '').startswith('parmcb::') and \
+                    any(ex.var_of(a_) in appended_locals for a_ in x.c):
+                for rec in prog.records:
+                    if isinstance(rec, dict) and rec.get('g') == x.callee.get('rec') and rec.get('fields'):
+                        for fid in rec['fields']:
+                            if ((prog.base_type(prog.vars[fid].get('ty')) or {}).get('rec') or '') == 'std::vector':
+                                appended_fields.add(fid)
+    for fn in prog.functions:
+        if fn.implicit or fn.body is None or not (fn.file.startswith(env.REPO + '/include') or fn.file.startswith(env.WITNESS + '/positive')):
+            continue
+        if only_files and not any(x in fn.file for x in only_files):
+            continue
+        for c in fn.walk():
+            if c.k != 'CallExpr' or not c.callee or c.callee['g'] not in SORTED_RANGE_ALGOS or len(c.args()) < 2:
+                continue
+            starts = [0, 2] if c.callee['g'] in ('std::set_difference', 'std::set_union', 'std::set_intersection', 'std::set_symmetric_difference', 'std::includes', 'std::merge') else [0]
+            for ix in starts:
+                if ix >= len(c.args()):
+                    continue
+                a0 = c.args()[ix].strip_all()
+                if not (a0.k == 'CXXMemberCallExpr' and a0.callee and a0.callee['name'] in ('begin', 'cbegin') and a0.object_arg() is not None):
+                    continue
+                o = a0.object_arg().strip_all()
+                rec = (prog.base_type(o.j.get('t')) or {}).get('rec') or ''
+                n += 1
+                if rec in ('std::set', 'std::multiset', 'std::map', 'std::multimap'):
+                    rep.ok('R07t', c, fn, what, '%s over a %s' % (c.callee['name'], rec))
+                    continue
+                if rec not in ('std::vector', 'std::deque', 'std::list', 'std::array'):
+                    rep.info('R07t', c, fn, what, 'range of a %s' % (rec or 'non-container'))
+                    continue
+                v = ex.var_of(o)
+                if o.k == 'MemberExpr' and o.decl_id is not None and prog.vars[o.decl_id].get('kind') == 'field':
+                    fid = o.decl_id
+                    if fid in sorted_fields:
+                        rep.info('R07t', c, fn, what, 'the member `%s` is sorted somewhere in the program' % prog.vars[fid]['name'])
+                    elif fid in appended_fields:
+                        rep.violation('R07t', c, fn, what, '`%s` runs over the std::vector member `%s`, which is filled with push_back and never sorted anywhere: the algorithm '
+                                      'requires sorted ranges, its result depends on the order in which the elements were appended' % (
+                                          c.text(50), prog.vars[fid]['name']), key='R07t|%s|%s' % (fn.g, prog.vars[fid]['name']))
+                    else:
+                        rep.info('R07t', c, fn, what, 'member `%s`: writers not recognised' % prog.vars[fid]['name'])
+                elif v is not None and ex.sorted_before(fn, v, c):
+                    rep.ok('R07t', c, fn, what, 'sorted before the call')
+                else:
+                    rep.info('R07t', c, fn, what, 'local range, sortedness not traced')
+    return n
+
+
 def r07l(rep, prog, only_files=None):
     """integer division / modulo whose divisor is the size of a container (or a count) that can be zero for a valid input - a forest has no
     feedback vertices, no candidate cycles, no trees - is a division by zero (SIGFPE).  Flagged when the divisor is `X.size()` / `num_vertices` /
@@ -973,6 +1084,8 @@ def run(rep, tier):
     rep.rule('R07p', 'std::accumulate and friends sum in a type as wide as the elements (the initial value fixes the accumulator type)', floor=0)
     rep.rule('R07q', 'no use of a moved-from standard container without re-initialisation', floor=0)
     rep.rule('R07r', 'no reference to a vector element is used after the vector may have reallocated', floor=0)
+    rep.rule('R07s', 'the circuit table of the isometric builder is never dereferenced at end()', floor=0)
+    rep.rule('R07t', 'sorted-range algorithms only see sorted ranges', floor=0)
     rep.rule('R07o', 'comparators handed to std::sort and the other ordering algorithms are irreflexive', floor=2)
     rep.rule('R07j', 'no recursion along the graph in library functions', floor=0)
     rep.rule('R06d', 'the scratch maps of the closing-path search are private to each search (no stale labels, no sharing between TBB tasks)', floor=2)
@@ -1015,6 +1128,8 @@ def run(rep, tier):
         r07p(rep, prog)
         r07q(rep, prog)
         r07r(rep, prog)
+        r07s(rep, prog)
+        r07t(rep, prog)
         r07e(rep, prog)
         from . import c04
         sub4 = type(rep)(rep.prop, rep.tier)
